@@ -29,6 +29,8 @@ const (
 	OSubDoc   = "WriteSubDoc"
 	OTouch    = "Touch"
 	OUpdDel   = "Update(delete)"
+	OGetTouch = "GetAndTouchRaw"
+	OGetExp   = "GetExpiry"
 )
 
 // In is the input of one client call.
@@ -42,6 +44,7 @@ type In struct {
 	Def   uint64 `json:"def,omitempty"`
 	Path  string `json:"path,omitempty"`
 	XName string `json:"xname,omitempty"`
+	Exp   uint32 `json:"exp,omitempty"` // Touch / GetAndTouchRaw: the (absolute, unique) expiry to set
 }
 
 // Out is what the client observed.
@@ -60,6 +63,7 @@ type Out struct {
 	SawX    string            `json:"sawX,omitempty"`
 	SawCas  uint64            `json:"sawCas,omitempty"`
 	Calls   int               `json:"calls,omitempty"`
+	Exp     uint32            `json:"exp,omitempty"` // GetExpiry
 }
 
 // St is the model state of one key. C == 0 means "CAS not yet observed" (blind writes do not return it).
@@ -69,6 +73,7 @@ type St struct {
 	B string // body
 	X string // canonical xattrs: "name=value;" sorted
 	C uint64
+	E int64 // expiry of the live document; -1 = not pinned (after a sub-document write)
 }
 
 func xcanon(m map[string]string) string {
@@ -184,7 +189,7 @@ func step(st St, in In, out Out) (bool, St) {
 		if !st.L {
 			st.X = ""
 		}
-		st.P, st.L, st.B, st.C = true, true, in.Body, 0
+		st.P, st.L, st.B, st.C, st.E = true, true, in.Body, 0, 0
 		return true, st
 	case OAdd:
 		if out.Err != "" {
@@ -211,7 +216,7 @@ func step(st St, in In, out Out) (bool, St) {
 			if !st.L {
 				st.X = ""
 			}
-			st.P, st.L, st.B, st.C = true, true, in.Body, out.Cas
+			st.P, st.L, st.B, st.C, st.E = true, true, in.Body, out.Cas, 0
 			return true, st
 		}
 		if !isRefusal(out.Err) {
@@ -250,7 +255,7 @@ func step(st St, in In, out Out) (bool, St) {
 			if out.Err != "" || out.Num != n+in.Amt {
 				return false, st
 			}
-			st.B, st.C = strconv.FormatUint(out.Num, 10), 0
+			st.B, st.C, st.E = strconv.FormatUint(out.Num, 10), 0, 0
 			return true, st
 		}
 		if out.Err != "" || out.Num != in.Def {
@@ -268,7 +273,7 @@ func step(st St, in In, out Out) (bool, St) {
 		if !st.L {
 			st.X = ""
 		}
-		st.P, st.L, st.B, st.C = true, true, appendTok(out.Saw, !out.SawNil, in.Token), out.Cas
+		st.P, st.L, st.B, st.C, st.E = true, true, appendTok(out.Saw, !out.SawNil, in.Token), out.Cas, 0
 		return true, st
 	case OUpdDel:
 		if out.Err != "" {
@@ -332,11 +337,37 @@ func step(st St, in In, out Out) (bool, St) {
 		if !st.L {
 			st.X = ""
 		}
-		st.P, st.L, st.B, st.C = true, true, string(b), out.Cas
+		st.P, st.L, st.B, st.C, st.E = true, true, string(b), out.Cas, -1 // the expiry after a sub-document write is not pinned
 		return true, st
 	case OTouch:
 		if out.Err == "" {
-			return st.L, st
+			if !st.L {
+				return false, st
+			}
+			st.E = int64(in.Exp)
+			return true, st
+		}
+		return out.Err == "missing" && !st.L, st
+	case OGetTouch:
+		// an atomic read + touch: the body and CAS returned are those of the version that received the new expiry
+		if out.Err == "" {
+			if !st.L || out.Body != st.B || !casOK(st, out.Cas) {
+				return false, st
+			}
+			st.E = int64(in.Exp)
+			return true, st
+		}
+		return out.Err == "missing" && !st.L, st
+	case OGetExp:
+		if out.Err == "" {
+			if !st.L {
+				return st.P && out.Exp == 0, st // a tombstone row answers with its (cleared) expiry; "missing" is as good
+			}
+			if !(st.E == -1 || st.E == int64(out.Exp)) {
+				return false, st
+			}
+			st.E = int64(out.Exp)
+			return true, st
 		}
 		return out.Err == "missing" && !st.L, st
 	}
@@ -377,6 +408,6 @@ var Model = porcupine.Model{
 	Equal: func(a, b interface{}) bool { return a.(St) == b.(St) },
 	DescribeOperation: func(input, output interface{}) string {
 		i, o := input.(In), output.(Out)
-		return fmt.Sprintf("%s(%s cas=%d %s%s) -> err=%q cas=%d body=%q num=%d saw=%q", i.Kind, i.Key, i.Cas, i.Body, i.Token, o.Err, o.Cas, o.Body, o.Num, o.Saw)
+		return fmt.Sprintf("%s(%s cas=%d exp=%d %s%s) -> err=%q cas=%d body=%q num=%d saw=%q exp=%d", i.Kind, i.Key, i.Cas, i.Exp, i.Body, i.Token, o.Err, o.Cas, o.Body, o.Num, o.Saw, o.Exp)
 	},
 }
